@@ -15,7 +15,7 @@ LEVEL_TEXT = ('Decides the parts of the property that are visible in source: eve
 LEVEL_NOTE = ('Trusted: Cython-subset front-end, interpreter, class-level transfer functions of libm (sqrt, hypot, log, atan2, copysign per C99 Annex F), float() of a decimal literal is correctly rounded (as strtod). '
               'Not decided: ulp-level accuracy and overflow thresholds for finite arguments.')
 EXPLANATION = ('R20.1 double-factorial literals and index guard; R20.4 integer powers; R20.5 legacy _sqrt_neg_python == principal root; '
-               'R20.6 cf_build_dblcmplx writes (re, im) to slots (0, 1); R20.2 Annex G class tables; R20.7 defining identities on every finite-argument path; R20.8 module constants; R20.9 exponent ranges of the intermediates of the interpreted square root over all finite doubles; R20.12 equality predicates of the interpreted helpers compare exact functions of the arguments, not rounded intermediates; R20.10 the interpreted (2l+1)!! table of the legacy starting conditions is exact (module-level construction interpreted, int64 wrap-around modelled).')
+               'R20.6 cf_build_dblcmplx writes (re, im) to slots (0, 1); R20.2 Annex G class tables; R20.7 defining identities on every finite-argument path; R20.8 module constants; R20.9 exponent ranges of the intermediates of the interpreted square root over all finite doubles; R20.13 element i of sqrt_neg(array) is the scalar result of element i (two-element arrays across regions); R20.12 equality predicates of the interpreted helpers compare exact functions of the arguments, not rounded intermediates; R20.10 the interpreted (2l+1)!! table of the legacy starting conditions is exact (module-level construction interpreted, int64 wrap-around modelled).')
 
 
 def dfact(n):
@@ -195,6 +195,38 @@ def run(chk):
         val = it3.call(mp, fpy, [zr], {'is_real': True})
         want = X.sqrt(zr) if sr > 0 else (X.I * X.sqrt(-zr) if sr < 0 else X.const(0))
         chk.ob('R20.5', f'_sqrt_neg_python(x, is_real=True) == principal root ({lab})', dq.equal(val, want), dq.describe(val, want), mp.where(fpy), key=f'R20.5|is_real|{sr}', method='GF(p^2) PIT on a sign region')
+    # R20.13 arrays: sqrt_neg is documented for arrays; element i of the result is the principal root of element i whatever the other elements are (a reduction over the
+    # whole array -- np.any / np.all / max -- that selects the method makes one element's result depend on its neighbours).  Two-element arrays whose cells lie in
+    # different regions of the plane; each cell against the scalar call on that cell.
+    from ..core.interp import Vec
+    cells = {'on the negative real axis': (dict(pins={'{}_im': 0}, pos=lambda re, im: [-re])), 'on the positive real axis': (dict(pins={'{}_im': 0}, pos=lambda re, im: [re])),
+             'off the axes': dict(pins={}, pos=lambda re, im: []), 'at the origin': dict(pins={'{}_im': 0, '{}_re': 0}, pos=lambda re, im: []),
+             'below the negative real axis': dict(pins={}, pos=lambda re, im: [-re, -im])}
+    pairs = [('on the negative real axis', 'off the axes'), ('off the axes', 'on the negative real axis'), ('on the positive real axis', 'below the negative real axis'), ('at the origin', 'off the axes'),
+             ('off the axes', 'off the axes'), ('below the negative real axis', 'on the positive real axis')]
+    for ka, kb in pairs:
+        ar, ai, br, bi = X.atom('za_re'), X.atom('za_im'), X.atom('zb_re'), X.atom('zb_im')
+        pins = {k_.format('za'): v_ for k_, v_ in cells[ka]['pins'].items()}; pins.update({k_.format('zb'): v_ for k_, v_ in cells[kb]['pins'].items()})
+        pos = cells[ka]['pos'](ar, ai) + cells[kb]['pos'](br, bi)
+        dq = X.Decider(seed=chk.seed + 41, k=3, positive=pos, pins=pins)
+        za_, zb_ = ar + X.I * ai, br + X.I * bi
+        itv = Interp(repo); itv.array_mode = True
+        bad = []
+        try:
+            out = itv.call(mp, fpy, [Vec([za_, zb_])], {'is_real': False})
+        except AnalysisError as ex:
+            raise AnalysisError(f'_sqrt_neg_python on a two-element array: {ex}')
+        out = getattr(out, 'v', out)
+        if not isinstance(out, (Vec, list)) or len(out) != 2:
+            bad.append(f'the result is not a two-element array ({type(out).__name__})')
+        else:
+            for i_, (z_, nm_) in enumerate(((za_, ka), (zb_, kb))):
+                sc = Interp(repo).call(mp, fpy, [z_], {'is_real': False})
+                if not dq.equal(X.lift(out[i_]), X.lift(sc)):
+                    bad.append(f'element {i_} ({nm_}) is not what the scalar call returns for it: {dq.describe(X.lift(out[i_]), X.lift(sc))}')
+        chk.ob('R20.13', f'_sqrt_neg_python([z_a, z_b]) with z_a {ka}, z_b {kb}: each element of the result is the scalar result for that element', not bad, '; '.join(bad), mp.where(fpy),
+               key=f'R20.13|{ka}|{kb}', method='whole-array interpretation (element-wise numpy semantics, reductions forked and merged as masks) + GF(p^2) PIT on sign regions')
+    chk.floor('R20.13', 6)
     # compiled main branch: t = sqrt((|z| + z_r)/2), result = (t, z_i/(2t)) for z_r >= 0 : same principal root
     finite_paths(chk, repo)
     chk.floor('R20.7', 2)
